@@ -333,6 +333,12 @@ class SymInt:
         return _mk(_term(o, w) - _ext(self.t, w), lo, hi)
 
     def __mul__(self, o):
+        if isinstance(o, float):
+            from .floats import scale
+
+            return scale(self, o)
+        if type(o).__name__ == "SymRatio":
+            return o.__mul__(self)
         o = _coerce(o)
         if o is None:
             return NotImplemented
